@@ -1,13 +1,14 @@
 #!/bin/bash
 # Make (or refresh) scratch copies of /verif and /repo so that deliberate breakages can be tried
 # without touching /repo while a long run is using it:
-#   /tmp/rscratch  = git worktree of /repo HEAD
-#   /tmp/vscratch  = copy of /verif (no build output), with every `path = "/repo"` rewritten
+#   /tmp/rscratch$SFX  = git worktree of /repo HEAD
+#   /tmp/vscratch$SFX  = copy of /verif (no build output), with every `path = "/repo"` rewritten
 set -e
-if [ ! -d /tmp/rscratch ]; then git -C /repo worktree add -q --detach /tmp/rscratch HEAD; fi
-git -C /tmp/rscratch checkout -q --detach "$(git -C /repo rev-parse HEAD)"
-git -C /tmp/rscratch checkout -- . && git -C /tmp/rscratch clean -fdqx -e target -e Cargo.lock
-mkdir -p /tmp/vscratch
-rsync -a --delete --exclude target --exclude replays --exclude .git --exclude evidence /verif/ /tmp/vscratch/
-for f in /tmp/vscratch/*/Cargo.toml; do sed -i 's|path = "/repo"|path = "/tmp/rscratch"|' "$f"; done
-echo "scratch ready: TZSIM_REPO=/tmp/rscratch /tmp/vscratch/check ..."
+SFX="${SCRATCH_SUFFIX:-}"
+if [ ! -d /tmp/rscratch$SFX ]; then git -C /repo worktree add -q --detach /tmp/rscratch$SFX HEAD; fi
+git -C /tmp/rscratch$SFX checkout -q --detach "$(git -C /repo rev-parse HEAD)"
+git -C /tmp/rscratch$SFX checkout -- . && git -C /tmp/rscratch$SFX clean -fdqx -e target -e Cargo.lock
+mkdir -p /tmp/vscratch$SFX
+rsync -a --delete --exclude target --exclude replays --exclude .git --exclude evidence /verif/ /tmp/vscratch$SFX/
+for f in /tmp/vscratch$SFX/*/Cargo.toml; do sed -i "s|path = \"/repo\"|path = \"/tmp/rscratch$SFX\"|" "$f"; done
+echo "scratch ready: TZSIM_REPO=/tmp/rscratch$SFX /tmp/vscratch$SFX/check ..."
